@@ -34,7 +34,7 @@ REQUIRED = dict(monitors=['fit-names-and-order', 'prior-implied-by-current-setti
                           'boundaries-implied-by-current-settings', 'derived-names', 'write-back-is-identity',
                           'update-sets-fitted-to-prior-transform', 'update-leaves-others-untouched',
                           'unknown-parameter-is-an-error', 'history-log-complete'],
-                classes=['op:failed_compile', 'parameter-declared-as-integer', 'update:same-container-edited-in-place', 'update:same-vector-after-direct-write', 'op:enable_fit', 'op:disable_fit', 'op:set_mode', 'op:set_boundary', 'op:set_factor_boundary',
+                classes=['op:failed_compile', 'bounds-nudged-in-a-late-digit', 'parameter-declared-as-integer', 'update:same-container-edited-in-place', 'update:same-vector-after-direct-write', 'op:enable_fit', 'op:disable_fit', 'op:set_mode', 'op:set_boundary', 'op:set_factor_boundary',
                          'op:set_prior', 'op:enable_derived', 'op:disable_derived', 'op:compile_params',
                          'op:update_model', 'changed-after-first-compile', 'observation-parameter-fitted',
                          'user-prior-other-space', 'bounds-reversed'])
@@ -394,6 +394,14 @@ def wl_history(ctx, rng):
             history.append((op, n, m))
         elif op == 'set_boundary':
             b = rnd_bounds(rng, ref.p[n]['fget'](), True)
+            if compiled and rng.random() < 0.3 and min(ref.p[n]['bounds']) > 0:
+                # bounds refined in a late digit after a compile: the settings ARE different, however little
+                old_b = ref.p[n]['bounds']
+                k = int(rng.integers(0, 2))
+                nb = list(old_b)
+                nb[k] = float(nb[k] * (1.0 + float(rng.choice([-1, 1])) * 10 ** rng.uniform(-9, -5.3)))
+                b = tuple(nb)
+                ctx.observe('bounds-nudged-in-a-late-digit')
             if rng.random() < 0.3:
                 b = (b[1], b[0])
                 ctx.observe('bounds-reversed')
